@@ -131,8 +131,8 @@ def instances(tier):
         for k in ('>', '<', '-'):
             out.append({'name': f'order/n3/{k}', 'factory': 'order', 'params': {'n': 3, 'kind': k}, 'timeout': 280, 'native_limit': 300})
         out.append({'name': 'order/n2/mix', 'factory': 'order', 'params': {'n': 2, 'kind': 'mix'}, 'timeout': 200, 'native_limit': 100})
-        # four tables, edges restricted to the family  t1 -> t0, t2 -> t1, t3 -> t1, t3 -> t2  (a holder with more incoming edges than its target)
-        off = {f'e{i}{j}': False for i in range(4) for j in range(4) if i != j and (i, j) not in ((1, 0), (2, 1), (3, 1), (3, 2))}
+        # four tables, edges restricted to the family  t1 -> t0, t2 -> t1, t3 -> t1  (a holder with more incoming edges than its target)
+        off = {f'e{i}{j}': False for i in range(4) for j in range(4) if i != j and (i, j) not in ((1, 0), (2, 1), (3, 1))}
         for k in ('-', '>'):
             out.append({'name': f'order/n4/{k}/star', 'factory': 'order', 'params': {'n': 4, 'kind': k, 'fix': off}, 'timeout': 280, 'native_limit': 200})
         out.append({'name': 'order/n3/>/same_names', 'factory': 'order', 'params': {'n': 3, 'kind': '>', 'same_names': True}, 'timeout': 280,
